@@ -36,6 +36,9 @@ class Req:
         self.proto = "h1"
         self.stream_id = None
         self.t_head = 0.0
+        self.tls = False
+        self.tls_info = None
+        self.alpn = None
 
     def header(self, name: bytes) -> list[bytes]:
         name = name.lower()
@@ -337,7 +340,7 @@ class OriginConn:
         o = self.origin
         if o.tls_fail:
             raise TLSFailure(o.tls_fail)
-        if not o.tls:
+        if o.tls is False:
             o.anomaly("tls-on-plain-origin", tr=tr.id, sni=info["sni"])
         if self.tls_done:
             o.anomaly("double-tls", tr=tr.id)
@@ -370,7 +373,7 @@ class OriginConn:
             data = bytes(self.prebuf)
             self.prebuf.clear()
             self.first = False
-            if o.tls and not self.tls_done:
+            if o.tls is True and not self.tls_done:
                 o.anomaly("plaintext-to-tls-origin", tr=tr.id)
             if data.startswith(H2_PREFACE):
                 from .endpoints_h2 import H2Server
@@ -412,6 +415,9 @@ class OriginConn:
                 req.t_head = o.net.now()
                 from .simnet import CALL
                 req.call = CALL.get()
+                req.tls = self.tls_done
+                req.tls_info = tr.layers[-1] if (self.tls_done and tr.layers) else None
+                req.alpn = self.alpn
                 self.n += 1
                 o.requests.append(req)
                 o.net.log("req.head", origin=o.name, tr=tr.id, token=req.token, ordinal=req.ordinal,
